@@ -1,4 +1,5 @@
 import Rpcx.Model.Breaker
+import Rpcx.Lemmas.BreakerConc
 /-
   C18: the consecutive-failure circuit breaker – theorems over the REGENERATED
   `ready/success/fail/reset` (client/circuit_breaker.go) inside the hand-written `Call`
@@ -181,6 +182,108 @@ theorem dial_after_window (p : BreakerCfg) (s : BreakerSt) (t t' : Int) (o : Boo
 /-- non-vacuity: threshold 2, seven failing attempts inside one window: two dials, five refusals; then one after it -/
 example : (Dial.run ⟨2, 100⟩ ⟨0, 0⟩ [(1, 1, false), (2, 2, false), (3, 3, false), (4, 4, false), (5, 5, false), (200, 200, false)]).2
     = [.dialedFail, .dialedFail, .open, .open, .open, .dialedFail] := by decide
+
+/-! ### concurrent callers
+  `Model/BreakerConc`: every atomic load / store / add of `ready`, `success`, `fail` is one step of one
+  caller; a history is ANY interleaving of the steps of ANY number of callers, with any clock
+  readings.  (The sequential theorems above are the case of one caller: `solo_call`.) -/
+
+/-- a caller running alone executes exactly the regenerated `Call` – the micro-step program is
+    the code the sequential theorems are about -/
+theorem solo_call (p : BreakerCfg) (s : BreakerSt) (t t' : Int) (o : Bool) :
+    soloCall p s t t' o = Breaker.call p s t t' o := by
+  unfold soloCall Breaker.call Breaker.ready Breaker.success Breaker.fail Breaker.reset
+  by_cases h1 : t - s.lastFailureTime > p.window
+  · cases o <;> simp [Pc.step, h1]
+  · by_cases h2 : s.failures < p.threshold
+    · cases o <;> simp [Pc.step, h1, h2]
+    · cases o <;> simp [Pc.step, h1, h2]
+
+/-- a refusal is always justified by the counter: the step that refuses is the load of `failures`,
+    it reads a value ≥ threshold, and it changes nothing and starts nothing -/
+theorem conc_refused_sound (p : BreakerCfg) (sh : BreakerSt) (pc : Pc) (now : Int) (ok : Bool)
+    (h : (pc.step p sh now ok).2.2.1 = .refused) :
+    pc = .loadF ∧ p.threshold ≤ sh.failures ∧ (pc.step p sh now ok).1 = sh ∧ (pc.step p sh now ok).2.1 = .idle := by
+  cases pc <;> simp [Pc.step] at h ⊢
+  · split at h <;> simp at h
+  · rename_i k; cases k <;> simp at h
+  · by_cases hf : sh.failures < p.threshold
+    · simp [hf] at h
+    · simp [hf]; omega
+  · split at h <;> simp at h
+
+/-- the protected function is started only by a caller that read `failures < threshold`, or that
+    found the window elapsed and reset the breaker itself -/
+theorem conc_admitted_sound (p : BreakerCfg) (sh : BreakerSt) (pc : Pc) (now : Int) (ok : Bool)
+    (h : (pc.step p sh now ok).2.2.1 = .admitted) :
+    (pc = .loadF ∧ sh.failures < p.threshold) ∨ pc = .stamp true := by
+  cases pc <;> simp [Pc.step] at h ⊢
+  · split at h <;> simp at h
+  · rename_i k; cases k <;> simp at h ⊢
+  · by_cases hf : sh.failures < p.threshold
+    · exact hf
+    · simp [hf] at h
+  · split at h <;> simp at h
+
+/-- the window is consulted first: a caller reaches the load of `failures` only after reading a
+    `lastFailureTime` whose window has not elapsed -/
+theorem conc_loadF_only_inside_window (p : BreakerCfg) (sh : BreakerSt) (pc : Pc) (now : Int) (ok : Bool)
+    (h : (pc.step p sh now ok).2.1 = .loadF) : pc = .idle ∧ now - sh.lastFailureTime ≤ p.window := by
+  cases pc <;> simp [Pc.step] at h ⊢
+  · by_cases hw : now - sh.lastFailureTime > p.window
+    · simp [hw] at h
+    · omega
+  · rename_i k; cases k <;> simp at h
+  · split at h <;> simp at h
+  · split at h <;> simp at h
+
+/-- **no lost failures**: in every interleaving, as long as nobody has stored `failures := 0` (no
+    success recorded, no window found elapsed), the counter is exactly the initial value plus the
+    number of failures recorded – concurrent `fail`s never overwrite one another -/
+theorem conc_failures_exact (p : BreakerCfg) (sh : BreakerSt) (k : Nat) (evs : List CEv) :
+    let c := Conc.run p (Conc.init sh k) evs
+    c.zeroed = false → c.sh.failures = sh.failures + c.adds :=
+  (Conc.inv_run p sh.failures k evs _ (Conc.inv_init p sh k)).cnt
+
+/-- **an open breaker starts nothing, whoever asks and however the callers interleave**: from
+    `failures ≥ threshold`, until somebody stores `failures := 0` (which only a caller that reads an
+    elapsed window does – nobody is inside the function to succeed), the protected function is never
+    started -/
+theorem conc_open_admits_nothing (p : BreakerCfg) (sh : BreakerSt) (k : Nat) (evs : List CEv)
+    (hopen : p.threshold ≤ sh.failures) :
+    let c := Conc.run p (Conc.init sh k) evs
+    c.zeroed = false → c.admitted = 0 :=
+  fun hz => (Conc.inv_run p sh.failures k evs _ (Conc.inv_init p sh k)).opn hz hopen
+
+/-- **how far concurrency can overshoot the threshold**: `k` callers, every schedule; while nobody
+    has stored `failures := 0`, the protected function has been started at most
+    `threshold − failures₀ + k − 1` times: once `threshold` failures are recorded nobody is admitted
+    any more, and at most `k − 1` other callers can be past their readiness check at that moment.
+    (`k = 1`: at most `threshold − failures₀` – the sequential statement.) -/
+theorem conc_admission_bound (p : BreakerCfg) (sh : BreakerSt) (k : Nat) (evs : List CEv) :
+    let c := Conc.run p (Conc.init sh k) evs
+    c.zeroed = false → c.admitted = 0 ∨ c.admitted + sh.failures + 1 ≤ p.threshold + k :=
+  (Conc.inv_run p sh.failures k evs _ (Conc.inv_init p sh k)).bound
+
+/-- every admission is accounted for: a recorded failure, or a caller still inside the function (or
+    about to record its success) -/
+theorem conc_admissions_accounted (p : BreakerCfg) (sh : BreakerSt) (k : Nat) (evs : List CEv) :
+    let c := Conc.run p (Conc.init sh k) evs
+    c.zeroed = false → c.admitted = c.adds + c.pending :=
+  (Conc.inv_run p sh.failures k evs _ (Conc.inv_init p sh k)).adm
+
+/-- non-vacuity, and the bound is tight: threshold 1, two callers that both pass the readiness check
+    before either fails – two starts (= threshold + k − 1), nothing zeroed, then both are refused -/
+example :
+    let evs : List CEv := [⟨0, 5, false⟩, ⟨1, 5, false⟩, ⟨0, 5, false⟩, ⟨1, 5, false⟩, ⟨0, 6, false⟩, ⟨1, 6, false⟩,
+      ⟨0, 7, false⟩, ⟨1, 7, false⟩, ⟨0, 8, false⟩, ⟨0, 8, false⟩, ⟨1, 8, false⟩, ⟨1, 8, false⟩]
+    let c := Conc.run ⟨1, 100⟩ (Conc.init ⟨0, 0⟩ 2) evs
+    c.zeroed = false ∧ c.admitted = 2 ∧ c.refusedN = 2 ∧ c.sh.failures = 2 := by decide
+
+/-- the tie of the concurrent model: every update of a breaker field in the current source is ONE atomic
+    operation (no store whose value comes from an earlier load of the same field – the lost-update
+    window `conc_failures_exact` excludes) -/
+theorem tie_breaker_updates_atomic : Gen.Breaker.nonAtomicUpdates = [] := by decide
 
 /-- the tie: ready/success/fail/reset (and the exported wrappers) were translated from the current source -/
 theorem tie_breaker : Gen.breakerTieOk = true := by decide
